@@ -85,3 +85,103 @@ Proof.
     + apply Hother. exact I.
     + intros w0. rewrite close_all_ws'. apply HS.
 Qed.
+
+(* the same with a predicate that depends on the worker, and the channel discipline that follows:
+   what is on a channel was put there by a worker whose code sends on it *)
+Section ActsW.
+Variable c : cfg.
+Variable P : nat -> act -> Prop.
+Hypothesis Hstop : forall w, P w AStop.
+Hypothesis Hplan : forall w l a, Forall (P w) (fst (plan c w l a)).
+Hypothesis Heof : forall w l, Forall (P w) (on_eof c w l).
+
+Definition actsw_state (s : state) : Prop := forall w, Forall (P w) (todo_of (wc (ws s w))).
+
+Lemma actsw_other s s' w : (forall w', w' <> w -> ws s' w' = ws s w') -> Forall (P w) (todo_of (wc (ws s' w))) ->
+  actsw_state s -> actsw_state s'.
+Proof. intros Ho Hw HS w'. destruct (Nat.eq_dec w' w) as [->|Hne]; auto. rewrite Ho; auto. Qed.
+
+Lemma actsw_take s w a : Forall (P w) (todo_of (wc (take c s w a))).
+Proof.
+  unfold take. pose proof (Hplan w (wl (ws s w)) a) as H.
+  destruct (plan c w (wl (ws s w)) a) as [acts l']. destruct (gated c); simpl; exact H.
+Qed.
+
+Theorem actsw_step s e s' : actsw_state s -> step c s e = Some s' -> actsw_state s'.
+Proof.
+  intros HS Hs. destruct (step_effect c s e s' Hs) as [_ He].
+  destruct He as [i x Hi Hcl | i Hi Hcl | k t v rest Hb | k v w eof a rest Hb Hcap Hcl Hw Hc Hs0 | | | w s' Hw He
+                 | w a todo Hw Hc | Hcl Had Hcd | t Ht]; try exact HS.
+  - apply actsw_other with s w; simpl; intros; upd_simpl; auto. simpl.
+    pose proof (HS w) as H. rewrite Hc in H. simpl in H. inversion H; auto.
+  - pose proof (HS w) as Hw0.
+    destruct He as [i a t rest Hsrc Hc Hb | Hsrc Hc | i Hsrc Hc Hb Hcl | ctl' Hcn Hdue Hsl Hsls
+                   | eof a k0 v rest Hc Hs0 Hcl | eof k0 t r rest Hc Hb | dropped Hp Hnd Hnr Hnc Hwhy | eof a k0 v rest Hc Hs0 Hcl].
+    + apply actsw_other with s w; simpl; intros; upd_simpl; auto. apply actsw_take.
+    + apply actsw_other with s w; simpl; intros; upd_simpl; auto. apply actsw_take.
+    + apply actsw_other with s w; simpl; intros; upd_simpl; auto. simpl. apply Heof.
+    + apply actsw_other with s w; simpl; intros; upd_simpl; auto. simpl.
+      pose proof (ctl_next_incl _ _ Hcn) as Hi. rewrite Forall_forall in *. auto.
+    + apply actsw_other with s w; simpl; intros; upd_simpl; auto. simpl.
+      rewrite Hc in Hw0. simpl in Hw0. inversion Hw0; auto.
+    + apply actsw_other with s w; simpl; intros; upd_simpl; auto. simpl.
+      rewrite Hc in Hw0. simpl in Hw0. inversion Hw0; auto.
+    + unfold finish. set (s1 := set_w s w _).
+      assert (H1 : actsw_state s1) by (apply actsw_other with s w; unfold s1; simpl; intros; upd_simpl; simpl; auto).
+      destruct (closer c); auto. intros w'. rewrite close_all_ws'. apply H1.
+    + exact HS.
+  - apply actsw_other with s w; simpl; intros; upd_simpl; auto. simpl.
+    pose proof (HS w) as H. rewrite Hc in H. exact H.
+  - intros w. simpl. rewrite close_all_ws'. apply HS.
+Qed.
+
+Theorem actsw_reachable s : reachable c s -> actsw_state s.
+Proof.
+  apply reachable_inv; [|apply actsw_step].
+  intros w. unfold init, init_worker. simpl. destruct (pre c w (l0 c w)); simpl; auto.
+Qed.
+End ActsW.
+
+Section ChanTags.
+Variable c : cfg.
+Variable sendsto : nat -> nat -> Prop.     (* worker w may send on channel k *)
+Hypothesis Hplan : forall w l a, Forall (fun x => forall k v, sends_on x k v -> sendsto w k) (fst (plan c w l a)).
+Hypothesis Heof : forall w l, Forall (fun x => forall k v, sends_on x k v -> sendsto w k) (on_eof c w l).
+
+Definition chan_tags (s : state) : Prop := forall k t v, In (t, v) (rcvd s k ++ cbuf (outs s k)) -> sendsto t k.
+
+Theorem chan_tags_reachable s : reachable c s -> chan_tags s.
+Proof.
+  intros Hr.
+  assert (Hacts : forall s0, reachable c s0 -> forall w, Forall (fun x => forall k v, sends_on x k v -> sendsto w k) (todo_of (wc (ws s0 w)))).
+  { intros s0 H0. apply (actsw_reachable c (fun w x => forall k v, sends_on x k v -> sendsto w k)); auto.
+    intros w k v [H|H]; discriminate. }
+  revert s Hr.
+  apply (reachable_inv_strong c chan_tags).
+  - intros k t v H. simpl in H. contradiction.
+  - intros s e s' Hr HI Hs. destruct (step_effect c s e s' Hs) as [_ He].
+    assert (Hsame : (forall k, rcvd s' k ++ cbuf (outs s' k) = rcvd s k ++ cbuf (outs s k)) -> chan_tags s').
+    { intros E k t v Hin. rewrite E in Hin. eapply HI; eauto. }
+    assert (Hpush : forall w a k0 v0 eof rest, wc (ws s w) = WRun eof (a :: rest) -> sends_on a k0 v0 -> sendsto w k0).
+    { intros w a k0 v0 eof rest Hc Hs0. pose proof (Hacts s Hr w) as H. rewrite Hc in H. simpl in H. inversion H; subst. eauto. }
+    destruct He as [i x Hi Hcl | i Hi Hcl | k t v rest Hb | k v w eof a rest Hb Hcap Hcl Hw Hc Hs0 | | | w s'' Hw He
+                   | w a todo Hw Hc | Hcl Had Hcd | t Ht]; try (apply Hsame; reflexivity).
+    + apply Hsame. intros k'. simpl. destruct (Nat.eq_dec k' k) as [->|Hne]; upd_simpl; auto. simpl. rewrite Hb. simpl.
+      rewrite <- app_assoc. reflexivity.
+    + intros k' t v' Hin. simpl in Hin. destruct (Nat.eq_dec k' k) as [->|Hne]; upd_simpl_in Hin; [|eapply HI; eauto].
+      rewrite Hb, app_nil_r in Hin. apply in_app_or in Hin. destruct Hin as [Hin|[Hin|[]]].
+      * eapply (HI k). apply in_or_app. left. exact Hin.
+      * inversion Hin; subst. eapply Hpush; eauto.
+    + destruct He as [i a t rest Hsrc Hc Hb | Hsrc Hc | i Hsrc Hc Hb Hcl | ctl' Hcn Hdue Hsl Hsls
+                     | eof a k0 v rest Hc Hs0 Hcl | eof k0 t r rest Hc Hb | dropped Hp Hnd Hnr Hnc Hwhy | eof a k0 v rest Hc Hs0 Hcl];
+        try (apply Hsame; reflexivity).
+      * intros k t v' Hin. simpl in Hin. destruct (Nat.eq_dec k k0) as [->|Hne]; upd_simpl_in Hin; [|eapply HI; eauto].
+        simpl in Hin. rewrite app_assoc in Hin. apply in_app_or in Hin. destruct Hin as [Hin|[Hin|[]]].
+        -- eapply HI; eauto.
+        -- inversion Hin; subst. eapply Hpush; eauto.
+      * apply Hsame. intros k. simpl. destruct (Nat.eq_dec k k0) as [->|Hne]; upd_simpl; auto. simpl. rewrite Hb. simpl.
+        rewrite <- app_assoc. reflexivity.
+      * apply Hsame. intros k. unfold finish. destruct (closer c); auto. now rewrite close_all_streams.
+    + apply Hsame. intros k. simpl. apply close_all_streams.
+Qed.
+End ChanTags.
